@@ -515,27 +515,6 @@ SPECS["C13"] = dict(
         "Woodpile.Props.C13.ra_per_thread_monotone",
         "Woodpile.Props.C13.ra_published_monotone",
         "Woodpile.Props.C13.ra_stale_update_ignored",
-        "Woodpile.Props.C13.sc_fresh_update_accepted",
-        "Woodpile.Props.C13.sc_accepted_update_completes",
-        "Woodpile.Props.C13.sc_update_completed",
-        "Woodpile.Props.C13.sc_update_ignored_covered",
-        "Woodpile.Props.C13.sc_bookkeeping_exact",
-        "Woodpile.Props.C13.sc_calls_sound",
-        "Woodpile.Props.C13.sc_real_time_order",
-        "Woodpile.Props.C13.sc_completed_update_visible",
-        "Woodpile.Props.C13.ra_fresh_update_accepted",
-        "Woodpile.Props.C13.ra_accepted_update_completes",
-        "Woodpile.Props.C13.ra_update_completed",
-        "Woodpile.Props.C13.ra_update_ignored_covered",
-        "Woodpile.Props.C13.ra_view_monotone",
-        "Woodpile.Props.C13.ra_view_monotone_run",
-        "Woodpile.Props.C13.ra_sync_transfers_view",
-        "Woodpile.Props.C13.ra_bookkeeping_exact",
-        "Woodpile.Props.C13.ra_calls_sound",
-        "Woodpile.Props.C13.ra_return_view_kept",
-        "Woodpile.Props.C13.ra_program_order",
-        "Woodpile.Props.C13.ra_update_then_snapshot",
-        "Woodpile.Props.C13.ra_own_update_visible",
     ],
     families=[dict(name="abt", quick=1500, thorough=60000)],
     vtags=["C13"],
@@ -568,12 +547,6 @@ SPECS["C18"] = dict(
         "Woodpile.Props.C18.ra_solo_snapshot_terminates",
         "Woodpile.Props.C18.ra_retry_only_on_publish",
         "Woodpile.Props.C18.unlocked_inherits",
-        "Woodpile.Props.C18.sc_retry_only_on_publish_during",
-        "Woodpile.Props.C18.ra_retry_only_on_publish_during",
-        "Woodpile.Props.C18.ra_solo_snapshot_terminates_uniform",
-        "Woodpile.Props.C18.ra_solo_is_run",
-        "Woodpile.Props.C18.ra_latest_admissible",
-        "Woodpile.Props.C18.unlocked_is_abt_snapshot",
     ],
     families=[dict(name="abt", quick=1500, thorough=60000)],
     vtags=["C18"],
@@ -696,11 +669,6 @@ SPECS["C19"] = dict(
         "Woodpile.Props.C19.untrusted_reports_none_and_noop",
         "Woodpile.Props.C19.returned_pairs_check",
         "Woodpile.Props.C19.no_panic",
-        "Woodpile.Props.C19.chkNat_is_chkReal",
-        "Woodpile.Props.C19.init_cells_agree",
-        "Woodpile.Props.C19.seq_update_refines",
-        "Woodpile.Props.C19.seq_snapshot_refines",
-        "Woodpile.Props.C19.try_update_differs_only_when_poisoned",
     ],
     # every case is a forked process working on real files, some wait out a refresh threshold (1-2 s):
     # few cases, spread over many shards
@@ -899,3 +867,62 @@ SPECS["C05"]["theorems"] += [
 SPECS["C05"]["level_text"] += (' Run level: a whole Op history (whose backfill tokens are its own) and a whole HCOBS encoder run (no side condition) is '
     'ONE history of this vocabulary on the world whose handle table carries the tokens (op_run_is_wrun, enc_prefix_is_wrun, enc_run_is_wrun), so those '
     'worlds are Reachable exactly as C05 / C10 / C20 quantify.')
+
+# ---- track abt2 (claim-audit gaps 7, 10, 18): statement-strength additions for C13 / C18 / C19 ----
+SPECS["C13"]["theorems"] += [
+    "Woodpile.Props.C13.sc_fresh_update_accepted",
+    "Woodpile.Props.C13.sc_accepted_update_completes",
+    "Woodpile.Props.C13.sc_update_completed",
+    "Woodpile.Props.C13.sc_update_ignored_covered",
+    "Woodpile.Props.C13.sc_bookkeeping_exact",
+    "Woodpile.Props.C13.sc_calls_sound",
+    "Woodpile.Props.C13.sc_real_time_order",
+    "Woodpile.Props.C13.sc_completed_update_visible",
+    "Woodpile.Props.C13.ra_fresh_update_accepted",
+    "Woodpile.Props.C13.ra_accepted_update_completes",
+    "Woodpile.Props.C13.ra_update_completed",
+    "Woodpile.Props.C13.ra_update_ignored_covered",
+    "Woodpile.Props.C13.ra_view_monotone",
+    "Woodpile.Props.C13.ra_view_monotone_run",
+    "Woodpile.Props.C13.ra_sync_transfers_view",
+    "Woodpile.Props.C13.ra_bookkeeping_exact",
+    "Woodpile.Props.C13.ra_calls_sound",
+    "Woodpile.Props.C13.ra_return_view_kept",
+    "Woodpile.Props.C13.ra_program_order",
+    "Woodpile.Props.C13.ra_update_then_snapshot",
+    "Woodpile.Props.C13.ra_own_update_visible",
+]
+SPECS["C18"]["theorems"] += [
+    "Woodpile.Props.C18.sc_retry_only_on_publish_during",
+    "Woodpile.Props.C18.ra_retry_only_on_publish_during",
+    "Woodpile.Props.C18.ra_solo_snapshot_terminates_uniform",
+    "Woodpile.Props.C18.ra_solo_is_run",
+    "Woodpile.Props.C18.ra_latest_admissible",
+    "Woodpile.Props.C18.unlocked_is_abt_snapshot",
+]
+SPECS["C19"]["theorems"] += [
+    "Woodpile.Props.C19.chkNat_is_chkReal",
+    "Woodpile.Props.C19.init_cells_agree",
+    "Woodpile.Props.C19.seq_update_refines",
+    "Woodpile.Props.C19.seq_snapshot_refines",
+    "Woodpile.Props.C19.try_update_differs_only_when_poisoned",
+]
+SPECS["C13"]["level_text"] += (' Track abt2: the history is tied to CALLS. State form: an accepted call\'s pair is in hist at an index covered by '
+    'its own view of sequence (sc/ra_update_completed), an ignored call has seen a strictly newer published pair (…_ignored_covered), a fresh valid '
+    'argument is not ignored and then completes in four always-enabled steps (…_fresh_update_accepted, …_accepted_update_completes). Call form: '
+    'SC/RA.GReachable run the same step function next to pure bookkeeping (step counter, operation in progress, one CallRec per completed call with '
+    'the caller\'s view of sequence at start/return); the bookkeeping is exact (…_bookkeeping_exact); every completed call satisfies Mach.RecOK '
+    '(…_calls_sound); END TO END: an update(b,v) that returned, or a try_update(b,v)=true, whose return view is included in a snapshot\'s start view '
+    '(U.vRet <= S.vStart: happens-before) makes that snapshot return base >= b (ra_update_then_snapshot); the inclusion holds for calls of one thread in '
+    'program order (ra_program_order, ra_own_update_visible), views only grow and sync transfers them (ra_view_monotone(_run), ra_sync_transfers_view); '
+    'on SC "before" is real time: U\'s last step precedes S\'s start label (sc_real_time_order, sc_completed_update_visible).')
+SPECS["C18"]["level_text"] += (' Track abt2: ONE uniform termination statement on the view machine (ra_solo_snapshot_terminates_uniform: for every '
+    'adversarial but admissible reads-from strategy the solo reader returns within soloMeasure own steps; admissible strategies exist, '
+    'ra_latest_admissible; RA.solo is a machine run, ra_solo_is_run); a retry implies a newer sequence message that is beyond the snapshot\'s start '
+    '(start <= sq < new: …_retry_only_on_publish_during, both machines); unlocked_is_abt_snapshot is about the NFS model\'s own getBaseTimeUnlocked: '
+    'from any reachable SC state (writer frozen holding the lock, mutex poisoned or not) four loads, nothing shared changes, same pair.')
+SPECS["C19"]["level_text"] += (' Track abt2: the cell of the model is no longer an independent definition: cellUpdate / cellSnapshot / '
+    'getBaseTimeUnlocked ARE the AtomicBaseTime programs of C13/C18 (update, try_update, snapshot) run alone on the SC machine at the real voucher check '
+    'from a state whose writer mutex is free and unpoisoned (seq_update_refines, seq_snapshot_refines, init_cells_agree, chkNat_is_chkReal); try_update '
+    'differs from update only on a poisoned mutex (try_update_differs_only_when_poisoned), which no_panic keeps unreachable. nfs_voucher.rs has NO '
+    'module-wide mutex: the C19 theorems cover sequential histories only; for concurrent callers only C13/C18 on the cell carry over.')
